@@ -125,6 +125,12 @@ def observe(world, cat, numpy):
     out['sc'] = guarded(cat.spatial_counts)
     out['occ'] = guarded(cat.spatial_event_probability)
     out['mc'] = guarded(cat.magnitude_counts, **kw)
+    # the same histogram asked for together with the bins it refers to
+    rb = guarded(cat.magnitude_counts, retbins=True, **kw)
+    if not isinstance(out['mc'], Raised):
+        if isinstance(rb, Raised) or not (isinstance(rb, tuple) and len(rb) == 2 and numpy.array_equal(numpy.asarray(rb[1]), numpy.asarray(out['mc']))
+                                           and numpy.array_equal(numpy.asarray(rb[0], dtype=float), numpy.asarray(world.edges, dtype=float))):
+            out['mc'] = Raised(ValueError('magnitude_counts(retbins=True) disagrees with magnitude_counts(): %r' % (rb,)))
     filt = []
     e = world.edges
     for k in range(len(e)):
